@@ -17,7 +17,8 @@ type procInfo struct {
 	Order      int64
 	OrderConst bool
 	Roles      map[string]bool
-	Registered bool // constructed by a function that App's start-up path calls
+	Registered bool            // constructed by a function that App's start-up path calls
+	Body       []*ssa.Function // Props, its literals and the same-package helpers it consists of (breadth first)
 }
 
 func (p *procInfo) Name() string { return p.T.Obj().Name() }
@@ -93,11 +94,20 @@ func builtinProcessors(c *core.Ctx) []*procInfo {
 			if cal == nil || !c.InScope(cal) {
 				continue
 			}
-			for _, b := range cal.Blocks {
-				for _, in := range b.Instrs {
-					if al, ok := in.(*ssa.Alloc); ok {
-						if n := core.NamedOf(al.Type()); n != nil {
-							registered[n] = true
+			// the constructor, and the unexported constructor it may delegate to
+			ctors := []*ssa.Function{cal}
+			for _, c2 := range core.Calls(cal) {
+				if g := c2.Common().StaticCallee(); g != nil && c.InScope(g) && core.PkgOf(g) == core.PkgOf(cal) && g.Object() != nil && !g.Object().Exported() {
+					ctors = append(ctors, g)
+				}
+			}
+			for _, ctor := range ctors {
+				for _, b := range ctor.Blocks {
+					for _, in := range b.Instrs {
+						if al, ok := in.(*ssa.Alloc); ok {
+							if n := core.NamedOf(al.Type()); n != nil {
+								registered[n] = true
+							}
 						}
 					}
 				}
@@ -118,7 +128,6 @@ func builtinProcessors(c *core.Ctx) []*procInfo {
 		if pi.Class != "U" {
 			pi.Order, pi.OrderConst = constOrder(c.Method(T, "Order"))
 		}
-		top := []*ssa.Function{props}
 		all := core.WithAnon(props)
 		// helpers of the same package (functions and methods) that the method calls or passes as callbacks, transitively,
 		// belong to its body; contract methods of other processors do not
@@ -130,12 +139,23 @@ func builtinProcessors(c *core.Ctx) []*procInfo {
 			for _, b := range all[i].Blocks {
 				for _, in := range b.Instrs {
 					var ops []*ssa.Value
+					var cands []*ssa.Function
 					for _, op := range in.Operands(ops) {
 						if *op == nil {
 							continue
 						}
-						g, ok := (*op).(*ssa.Function)
-						if !ok || g.Blocks == nil || seen[g] || core.PkgOf(g) != core.PkgOf(props) {
+						if g, ok := (*op).(*ssa.Function); ok {
+							cands = append(cands, resolveWrapper(g))
+						}
+					}
+					// a collaborator behind an unexported single-implementation interface of the package
+					if ci, ok := in.(ssa.CallInstruction); ok && ci.Common().IsInvoke() {
+						if g := core.Seam(ci.Common()); g != nil {
+							cands = append(cands, g)
+						}
+					}
+					for _, g := range cands {
+						if g == nil || g.Blocks == nil || seen[g] || core.PkgOf(g) != core.PkgOf(props) {
 							continue
 						}
 						if g.Signature.Recv() != nil && g.Object() != nil {
@@ -153,17 +173,19 @@ func builtinProcessors(c *core.Ctx) []*procInfo {
 				}
 			}
 		}
+		pi.Body = all
 		anon := all[1:]
-		if invokeIn(top, elReplace) != nil && invokeIn(anon, ro.BinderGet) != nil {
+		// roles by what the method and the helpers it consists of do, wherever in them
+		if invokeIn(all, elReplace) != nil && invokeIn(anon, ro.BinderGet) != nil {
 			pi.Roles["quote"] = true
 		}
 		if extCallIn(all, "github.com/expr-lang/expr.Compile") != nil {
 			pi.Roles["expr"] = true
 		}
-		if extCallIn(top, "github.com/go-kid/strconv2.ParseAny") != nil && callIn(top, unmarshall) != nil {
+		if extCallIn(all, "github.com/go-kid/strconv2.ParseAny") != nil && callIn(all, unmarshall) != nil {
 			pi.Roles["value"] = true
 		}
-		if invokeIn(top, ro.BinderGet) != nil && callIn(top, unmarshall) != nil {
+		if invokeIn(all, ro.BinderGet) != nil && callIn(all, unmarshall) != nil && invokeIn(all, elReplace) == nil {
 			pi.Roles["prefix"] = true
 		}
 		if extCallIn(all, "(*github.com/go-playground/validator/v10.Validate).Struct", "(*github.com/go-playground/validator/v10.Validate).Var") != nil {
